@@ -369,6 +369,10 @@ package ast
 //@   ensures nohole: result.2 == nil && result.0 != nil ==> wfbox(result.0) && okIdx(tokens, index, result.1)
 //@   ensures stop: result.2 == nil && result.0 == nil ==> result.1 == index && (tokens[index].TokenType == END || tokens[index].TokenType == ELSE)
 
+//@ pred procEnd(t Int) := t == SET || t == THEN || t == IF || t == ELSE || t == END || t == DEBUG || t == RETURN || t == LOOP || t == BREAK || t == CONTINUE
+//@ func isProcessExprEnd [C08 C15]
+//@   ensures table: result == procEnd(tokenType)
+
 //@ func getProcessExpressionTokens [C08 C15]
 //@   noframe
 //@   requires tokWf(tokens) && 0 <= index && index < len(tokens)
@@ -376,6 +380,7 @@ package ast
 //@   ensures nonnil: forall k :: { result.0[k] } 0 <= k && k < len(result.0) ==> result.0[k] != nil
 //@   ensures nonempty: len(result.0) > 0 ==> result.1 > index
 //@   ensures filtered: forall k :: { result.0[k] } 0 <= k && k < len(result.0) ==> !ign(result.0[k].TokenType) [C15]
+//@   ensures stop: procEnd(tokens[result.1].TokenType) || tokens[result.1].TokenType == EOF [C15]
 //@   loop 1 invariant index <= token_index && token_index < len(tokens) && tokWf(tokens) && fresh(exprTokens) && (len(exprTokens) > 0 ==> token_index > index)
 //@   loop 1 invariant forall k :: { exprTokens[k] } 0 <= k && k < len(exprTokens) ==> exprTokens[k] != nil
 //@   loop 1 invariant filtered: forall k :: { exprTokens[k] } 0 <= k && k < len(exprTokens) ==> !ign(exprTokens[k].TokenType) [C15]
@@ -390,7 +395,7 @@ package ast
 //@   ensures index: result.2 == nil ==> index < result.1 && result.1 <= len(tokens)
 //@   loop 1 invariant index < token_index && token_index <= len(tokens) && wfbox(lhs)
 
-//@ func parse [C08 C15]
+//@ func parse [C08 C15 C13]
 //@   noframe
 //@   sigreads [C15]
 //@   requires tokWf(tokens)
@@ -398,6 +403,7 @@ package ast
 //@   loop 1 invariant 0 <= token_index && token_index < len(tokens)
 //@   loop 1 invariant forall k :: { commands[k] } 0 <= k && k < len(commands) ==> wfbox(commands[k])
 //@   loop 1 decreases len(tokens) - token_index
+//@   loop 1 invariant numbering: token_index == 0 ==> capture_group_number == 0 [C13]
 
 // ---- regex literal sub-parser (parser_regexp.go): total on every pattern text ----
 //@ func parse_regexp [C08 C14]
@@ -594,7 +600,7 @@ package ast
 
 //@ func getEscapedRune [C16]
 //@   ensures table: result == escOf(ch)
-//@ func IsHex [C16]
+//@ func IsHex [C16 C08]
 //@   ensures result == isHexC(ch)
 //@ func HexToAscii [C16 C08]
 //@   requires isHexC(ch1) && isHexC(ch2)
@@ -642,7 +648,7 @@ package ast
 // it) when \x is not followed by two hex digits.
 // Totality (C08): no panic for any input (every state the loop can end in has a case in the final
 // switch), both loops terminate, and a token other than EOF consumes input.
-//@ func (*Lexer).getNextToken [C16 C08]
+//@ func (*Lexer).getNextToken [C16 C08 C15]
 //@   requires lexOk(s)
 //@   let p0 := s.r.pos
 //@   nopanic [C08]
@@ -655,6 +661,8 @@ package ast
 //@   loop 2 invariant lexOk(s) && s.r.data == old(s.r.data) && s.r == old(s.r) && token != nil && s.r.pos > p0 && len(s.position.store) >= 2 && current_state == SSTART
 //@   loop 2 invariant curr_ch != 0 ==> s.r.pos <= len(s.r.data)
 //@   loop 2 decreases len(s.r.data) - s.r.pos + (curr_ch == 0 ? 0 : 1) [C08]
+//@   atcall unread_last blockcomment: (current_state == SBLOCKCOMMENT || current_state == SBLOCKCOMMENTSTARTEND || current_state == SBLOCKCOMMENTENDEND) ==> ch == 0 [C15]
+//@   atcall unread_last linecomment: current_state == SCOMMENT ==> ch == 0 || ch == '\n' [C15]
 //@   atcall WriteRune plain: (current_state == SSTRING_DOUBLE || current_state == SSTRING_SINGLE) ==> arg1 == ch [C16]
 //@   atcall WriteRune escape: (current_state == SSTRING_D_ESCAPE || current_state == SSTRING_S_ESCAPE) && !defined(hex) ==> ch != 'x' && arg1 == escOf(ch) [C16]
 //@   atcall WriteRune hex: (current_state == SSTRING_D_ESCAPE || current_state == SSTRING_S_ESCAPE) && defined(hex) ==> ch == 'x' && ((len(hex) == 2 && isHexC(hex[0]) && isHexC(hex[1])) ? arg1 == 16 * hexVal(hex[0]) + hexVal(hex[1]) : (arg1 == 'x' && s.r.pos >= 1 && sat(s.r.data, s.r.pos - 1) == 'x')) [C16]
